@@ -11,6 +11,8 @@ mod char_ref;
 mod interface;
 mod qname;
 pub mod states;
+#[cfg(html5ever_verif)]
+pub mod verif;
 
 pub use self::interface::{
     Doctype, EmptyTag, EndTag, Pi, ShortTag, StartTag, Tag, TagKind, Token, TokenSink,
